@@ -5,7 +5,7 @@ constructively (draw the target mixture, compute concentrations / quantities / t
 exactly those), so feasibility is known; infeasible ones by pushing one value across its limit."""
 from __future__ import annotations
 
-from .common import shard, run_cases, BASE_ASSUMPTIONS, repo_suite, repo_suite_job
+from .common import under_display_configs, shard, run_cases, BASE_ASSUMPTIONS, repo_suite, repo_suite_job
 
 ID = 'C05'
 LEVEL = 'exploration'
@@ -43,6 +43,9 @@ def required_buckets(tier):
 
 def plan(tier, seed):
     jobs = _plan(tier, seed)
+    # a fraction of the budget under other documented configurations (display units / precisions, storage units with
+    # unequal prefixes)
+    jobs = jobs + under_display_configs(shard('constructive', 90, 2) if tier == 'quick' else shard('constructive', 3000, 8))
     if tier != 'quick' or False:
         jobs = jobs + repo_suite_job()
     return jobs
